@@ -99,9 +99,10 @@ class Merge(Expr):
             predicate_columns = self._predicate_columns(predicate)
             if predicate_columns is None:
                 return False
-            if predicate_columns.issubset(self.left.columns):
+            left, right = self._filter_sides(predicate_columns)
+            if left:
                 return self.how in ("left", "inner", "leftsemi")
-            elif predicate_columns.issubset(self.right.columns):
+            elif right:
                 return self.how in ("right", "inner")
             elif len(predicate_columns) > 0:
                 return False
@@ -114,6 +115,28 @@ class Merge(Expr):
                 x()._name for x in dependents[self._name] if x() is not None
             }
         return False
+
+    def _filter_sides(self, predicate_cols):
+        """Into which inputs can a filter on these output columns be pushed
+
+        A column of one input that is renamed by its suffix in the output does
+        not carry the predicate's label, the predicate then refers to the column
+        of the other input.
+        """
+        left_suffix, right_suffix = self.suffixes[0], self.suffixes[1]
+        left = bool(predicate_cols) and predicate_cols.issubset(self.left.columns)
+        if left and left_suffix != "":
+            left = not any(
+                f"{col}{left_suffix}" in self.columns and col in self.right.columns
+                for col in predicate_cols
+            )
+        right = bool(predicate_cols) and predicate_cols.issubset(self.right.columns)
+        if right and right_suffix != "":
+            right = not any(
+                f"{col}{right_suffix}" in self.columns and col in self.left.columns
+                for col in predicate_cols
+            )
+        return left, right
 
     def _predicate_columns(self, predicate):
         if isinstance(predicate, (Projection, Unaryop, Isin)):
@@ -447,27 +470,14 @@ class Merge(Expr):
 
             predicate_cols = self._predicate_columns(parent.predicate)
             new_left, new_right = self.left, self.right
-            left_suffix, right_suffix = self.suffixes[0], self.suffixes[1]
-            if predicate_cols and predicate_cols.issubset(self.left.columns):
-                if left_suffix != "" and any(
-                    f"{col}{left_suffix}" in self.columns and col in self.right.columns
-                    for col in predicate_cols
-                ):
-                    # column was renamed so the predicate must go into the other side
-                    pass
-                else:
-                    left_filter = predicate.substitute(self, self.left)
-                    new_left = self.left[left_filter]
-            if predicate_cols and predicate_cols.issubset(self.right.columns):
-                if right_suffix != "" and any(
-                    f"{col}{right_suffix}" in self.columns and col in self.left.columns
-                    for col in predicate_cols
-                ):
-                    # column was renamed so the predicate must go into the other side
-                    pass
-                else:
-                    right_filter = predicate.substitute(self, self.right)
-                    new_right = self.right[right_filter]
+            # a renamed column means the predicate must go into the other side
+            left, right = self._filter_sides(predicate_cols)
+            if left:
+                left_filter = predicate.substitute(self, self.left)
+                new_left = self.left[left_filter]
+            if right:
+                right_filter = predicate.substitute(self, self.right)
+                new_right = self.right[right_filter]
             if new_right is self.right and new_left is self.left:
                 # don't drop the filter
                 return
